@@ -95,6 +95,10 @@ def cases(tier, seed):
                         if tier == "quick" and aniso in (3.0e4, 1.0e-6) and sum(sub) % 4:
                             continue
                         yield dict(kind="scipy", sub=list(sub), cls=cls, rescale=rescale, aniso=aniso)
+                        if aniso == 1.0 and sum(sub) % 3 == 0:
+                            # a repeated station with another value: whatever SciPy does with it is what verde must return (seed C03-11)
+                            yield dict(kind="scipy", sub=list(sub) + [sub[1]], cls=cls, rescale=rescale, aniso=aniso)
+                            yield dict(kind="scipy", sub=[sub[-1]] + list(sub), cls=cls, rescale=rescale, aniso=aniso)
 
 
 def _dec(x):
